@@ -8,7 +8,7 @@ if ! git apply --check "$patch" 2>/dev/null; then echo "PATCH-DOES-NOT-APPLY $pa
 git apply "$patch"
 # (the harness binaries are rebuilt from the restored tree at the end, so a later direct use of
 # target/release/hv never runs the broken copy)
-trap 'git -C /repo checkout -- . ; rm -rf /verif/target/seed_eval; cd /verif && ./hv_run list >/dev/null 2>&1' EXIT
+trap 'git -C /repo checkout -- . ; rm -rf /verif/target/seed_eval; [ -n "$SEED_EVAL_NO_REBUILD" ] || { cd /verif && ./hv_run list >/dev/null 2>&1; }' EXIT
 cd /verif
 export HV_REPLAY_DIR=/verif/target/seed_eval/replays HV_EVIDENCE_DIR=/verif/target/seed_eval/evidence
 for p in "$@"; do
